@@ -147,7 +147,23 @@ func runRules(sels []string, cfg string, overlay map[string][]byte) (list []ob.O
 			continue
 		}
 		s := &ob.Set{Config: cfg}
-		r.Run(m, s)
+		func() {
+			// a rule that trips over a shape of code it was not written for (an index into a
+			// parameter list that changed, a nil anchor) has nothing to say about that construct:
+			// fatal when validating the checker on the unchanged tree, a shape note otherwise
+			defer func() {
+				if rec := recover(); rec != nil {
+					if ae, ok := rec.(model.AnalysisError); ok {
+						panic(ae)
+					}
+					if model.Strict && overlay == nil {
+						panic(rec)
+					}
+					m.Blind("rule %s could not analyse part of this tree (%v); what it had established up to that point is kept", j.name, rec)
+				}
+			}()
+			r.Run(m, s)
+		}()
 		total := 0
 		for _, o := range s.List {
 			if o.Verdict != ob.Info {
@@ -155,7 +171,7 @@ func runRules(sels []string, cfg string, overlay map[string][]byte) (list []ob.O
 			}
 		}
 		if overlay == nil && cfg == "amd64" && total < r.Floor {
-			model.Blind("rule %s matched %d constructs in configuration %s, below its floor %d", j.name, total, cfg, r.Floor)
+			m.Blind("rule %s matched %d constructs in configuration %s, below its floor %d", j.name, total, cfg, r.Floor)
 		}
 		c := 0
 		for _, o := range s.List {
@@ -175,7 +191,7 @@ func runRules(sels []string, cfg string, overlay map[string][]byte) (list []ob.O
 		}
 		counts[j.name] = c
 		if overlay == nil && !j.all && c == 0 {
-			model.Blind("selector %s@%v matched no construct of rule %s", j.name, j.filters, j.name)
+			m.Blind("selector %s@%v matched no construct of rule %s", j.name, j.filters, j.name)
 		}
 	}
 	return
